@@ -220,6 +220,19 @@ class Interp(object):
     self.functions_seen[c.qualname] = (path, node.lineno, end)
     return c
 
+  def call_spec_for(self, f, st):
+    if not self.call_specs:
+      return None
+    fn = f
+    qn = None
+    if isinstance(fn, Closure):
+      qn = fn.qualname
+    elif isinstance(fn, types.FunctionType):
+      qn = fn.__module__ + ":" + fn.__qualname__
+    if qn is None:
+      return None
+    return self.call_specs.get(qn)
+
   def is_repo_function(self, fn):
     return isinstance(fn, types.FunctionType) and fn.__code__.co_filename.startswith(REPO + "/")
 
@@ -244,6 +257,11 @@ class Interp(object):
       neg = z3.BoolVal(True) if cond is False else z3.Not(cond)
       r, model = st.check([neg], what=name, want_model=True, timeout_ms=timeout_ms or self.obligation_timeout_ms)
       status = {"unsat": "proved", "sat": "refuted", "unknown": "unknown"}[r]
+      if status == "refuted":
+        import os as _os
+        if _os.environ.get("PYVC_DEBUG"):
+          from .backends import to_smt2
+          open("/tmp/pyvc_refuted_%s.smt2" % name.replace("/", "_")[:60], "w").write(to_smt2(st.pc + [neg]))
       if status == "unknown":
         import os as _os
         if _os.environ.get("PYVC_DEBUG"):
